@@ -547,7 +547,11 @@ class StmtMixin:
             self.payload[ref] = IntListP(z3.Array(n, z3.IntSort(), z3.IntSort()), ln, elem)
             self.assume_axiom(ln >= 0)
         elif isinstance(p, GhostSeqP):
-            raise Unsupported("loop appends tokens (ghost sequence)")
+            # tokens appended in a loop: the ghost tail is forgotten, only "the stream grew" remains
+            n = self.new_ref(name)
+            ln = z3.Int(f"len({n})")
+            self.assume_axiom(ln >= p.tail_len)
+            self.payload[ref] = GhostSeqP(p.base_len, p.items, True, ln, [])
         elif isinstance(p, IntMapP):
             n = self.new_ref(name)
             self.payload[ref] = IntMapP(z3.Array(n + "?in", z3.IntSort(), z3.BoolSort()), z3.Array(n, z3.IntSort(), z3.IntSort()))
